@@ -73,6 +73,8 @@ structure Env where
   embeddedKey : Nat → Option Key            -- key identity of the jwk header of signature i (public half)
   verifies : Key → String → Nat → Bool      -- signature i verifies with (key, alg) over ITS OWN signing input
   verifiesSplit : Key → String → Nat → Bool -- signature i verifies with (key, alg) over SplitCompact parts[0] "." parts[1]
+  /-- jwx.AlgorithmFitsKey(alg, key): an ECDSA key only with the algorithm of its curve (jwx itself checks the family only) -/
+  fits : Key → String → Bool := fun _ _ => true
 
 /-! ### crypto.ParseJWT (JWTKidAlg: exactly one signature; key by kid callback; IsAlgorithmSupported; jwt.ParseString WithKey) -/
 
@@ -84,6 +86,7 @@ def parseJWT (supported : List String) (E : Env) (j : Jws) : Outcome :=
       | none => .reject
       | some k =>
         if !supported.contains s.alg then .reject
+        else if !E.fits k s.alg then .reject                       -- jwx.AlgorithmFitsKey
         else if E.verifies k s.alg 0 then .accept [{ key := k, src := .resolver s.kid, alg := s.alg, idx := 0, overSigningInput := true }]
         else .reject
     | _ => .reject
@@ -108,6 +111,7 @@ def jwsLoop (supported : List String) (mode : VerifyMode) (E : Env) : Nat → Li
     else match E.resolve s.kid with
       | none => none
       | some k =>
+        if !E.fits k s.alg then none else                          -- jwx.AlgorithmFitsKey
         let ok := match mode with
           | .splitCompact => E.verifiesSplit k s.alg i
           | .library => E.verifies k s.alg i
